@@ -1269,3 +1269,74 @@ func ruleFloatFinite(c *Ctx, r *Report) {
 	}
 	r.analysed(rule, fname(fn))
 }
+
+// ---------------------------------------------------------------------------
+// R-INT-LITERAL-SIGNED (C06; added after seed C06d): the integers are -2^63 … 2^63-1: the magnitude of the
+// smallest one does not fit. The reader's integer conversion therefore checks the range of the SIGNED value:
+// the big value whose Int64() decides the representation error has had the sign applied (a call on the same
+// value with an argument that depends on the sign parameter dominates the range check). Checking the
+// magnitude first and multiplying afterwards rejects exactly one literal, -9223372036854775808 - which the
+// writer emits for min_integer.
+
+func ruleIntLiteralSigned(c *Ctx, r *Report) {
+	const rule = "R-INT-LITERAL-SIGNED"
+	fn := c.fn("integer")
+	if fn == nil || len(fn.Params) < 2 {
+		r.undecided(rule, "anchor:integer", "-", "locate the integer-literal conversion", "not found")
+		return
+	}
+	sign := ssa.Value(fn.Params[0])
+	desc := "the range of an integer literal is checked on the signed value"
+	n := 0
+	eachInstr(fn, func(in ssa.Instruction) {
+		call, ok := in.(*ssa.Call)
+		if !ok {
+			return
+		}
+		callee := call.Call.StaticCallee()
+		if callee == nil || callee.Pkg == nil || callee.Pkg.Pkg.Path() != "math/big" || (callee.Name() != "Int64" && callee.Name() != "IsInt64" && callee.Name() != "Int") || len(call.Call.Args) < 1 {
+			return
+		}
+		n++
+		key := fmt.Sprintf("%s/range-check#%d", fname(fn), n)
+		recv := call.Call.Args[0]
+		signed := false
+		eachInstr(fn, func(x ssa.Instruction) {
+			prev, ok := x.(*ssa.Call)
+			if !ok || prev == call || len(prev.Call.Args) < 2 {
+				return
+			}
+			touches := false
+			for _, a := range prev.Call.Args {
+				if a == recv {
+					touches = true
+				}
+			}
+			if !touches {
+				return
+			}
+			dep := false
+			for _, a := range prev.Call.Args {
+				dataSlice(a, func(v ssa.Value) bool {
+					if v == sign {
+						dep = true
+					}
+					return true
+				})
+			}
+			pb, cb := prev.Block(), call.Block()
+			if dep && ((pb == cb && instrIndex(prev) < instrIndex(call)) || (pb != cb && pb.Dominates(cb))) {
+				signed = true
+			}
+		})
+		if signed {
+			r.ok(rule, key, c.at(in), desc, "the checked value has been combined with the sign before the check", true)
+		} else {
+			r.bad(rule, fmt.Sprintf("%s/range-check", fname(fn)), c.at(in), desc, "the magnitude is range-checked before the sign is applied: -9223372036854775808 (min_integer, which the writer emits) is refused with a representation error")
+		}
+	})
+	if n == 0 {
+		r.bad(rule, fname(fn)+"/range-check", c.Pos(fn.Pos()), desc, "no range check of the literal found")
+	}
+	r.analysed(rule, fname(fn))
+}
